@@ -1,4 +1,5 @@
 use crate::{report::Report, Ctx};
+pub mod c19;
 pub mod child;
 pub mod c05;
 pub mod c07;
@@ -15,6 +16,7 @@ pub fn run(prop: &str, ctx: &Ctx) -> Option<Report> {
         "C15" => c15::run(ctx),
         "C16" => c16::run(ctx),
         "C17" => c17::run(ctx),
+        "C19" => c19::run(ctx),
         _ => return None,
     })
 }
